@@ -8,15 +8,18 @@
    A-J with both memo tables, tied to the real rule by verdict, final memo tables and the
    sequence of memo decisions): termination on every document; every comparison skipped on a memo hit was started earlier
    under a flag that subsumes the query.
-   Equivalence of the memoised algorithm with [spec_conflicts] is proved for documents without
-   named fragments only ([C14_equiv_partial]).  NOT proved in general (with fragments, where the
-   memo tables matter): stated as [C14_equiv_statement] (a definition, not a theorem) and checked
-   instance by instance by the
+   Relation of the memoised algorithm to [spec_conflicts]: "the memoisation never hides a
+   conflict" (specification conflict => the algorithm reports one) is proved for ALL documents,
+   cyclic fragments included ([C14_memo_never_hides]); the full equivalence is proved for documents
+   without named fragments ([C14_equiv_partial]).  NOT proved: the converse with fragments (a
+   conflict reported by the algorithm is one of the specification); the full statement
+   [C14_equiv_statement] is a definition, not a theorem, and is checked instance by instance by the
    correspondence run of harness/c14.py (real rule vs extracted [spec_conflicts] vs extracted
    [opt_conflicts]). *)
 From Coq Require Import Permutation.
 From GV Require Import Base.Prelude Valid.Overlap Valid.OverlapProps Valid.PairSet Valid.PairSetProps
-  Valid.OverlapOpt Valid.OverlapOptProps Valid.OverlapAdequacy Valid.OverlapEquiv Valid.OverlapOptTerm.
+  Valid.OverlapOpt Valid.OverlapOptProps Valid.OverlapAdequacy Valid.OverlapEquiv Valid.OverlapOptTerm
+  Valid.OverlapMemoSound.
 
 (* PairSet: has after add; a non-exclusive entry answers the exclusive and the non-exclusive
    query, an exclusive entry only the exclusive query; the set is unordered; an addition is
@@ -149,6 +152,25 @@ Theorem C14_equiv_partial : forall s d order fuel,
 Proof. intros s d order fuel Hnf Hops. exact (equiv_fragment_free s d Hnf Hops order fuel). Qed.
 Print Assumptions C14_equiv_partial.
 
+(* THE MEMOISATION NEVER HIDES A CONFLICT - for all documents, named and cyclic fragments
+   included: whenever the specification function finds a conflict, the memoised algorithm (both
+   memo tables, field maps per selection set, any visiting order that covers all definitions)
+   reports one.  Hypotheses are well-formedness only: field / inline-fragment ids identify
+   occurrences, fragment names are unique, argument names are unique per field, enough fuel.
+   Proof (Valid/OverlapOptTrace, OverlapOptClosure, OverlapMemoSound): a traced copy of the
+   algorithm computes the same verdict; if it completes without a conflict its log is closed
+   (every logged comparison was carried out completely, a memo hit being covered by an earlier
+   start under a subsuming flag); a closed log covers, under a subsuming flag, every pair of
+   every merged set the specification looks at; a covered pair has no derivation of a conflict. *)
+Theorem C14_memo_never_hides : forall s d ord fuel,
+  covers_all d ord -> nodupb (doc_all_ids d) = true -> NoDup (map fr_name (d_frags d)) ->
+  (forall o, In o (d_ops d) -> args_ok (snd o)) ->
+  (forall fd, In fd (d_frags d) -> args_ok (fr_body fd)) ->
+  (opt_fuel d <= fuel)%nat ->
+  spec_conflicts s d = true -> opt_conflicts s d ord fuel = Some true.
+Proof. intros s d ord fuel H1 H2 H3 H4 H5. exact (memo_never_hides s d ord H1 H2 H3 H4 H5 fuel). Qed.
+Print Assumptions C14_memo_never_hides.
+
 (* Stated, not proved (see the header): for typed documents with identifying ids, any visiting
    order of the definitions and enough fuel, the memoised algorithm finds a conflict iff the
    specification function does. *)
@@ -230,6 +252,23 @@ Proof.
   - intros o [<-|[]]. cbn. repeat split; eauto.
   - split; [intros i Hi; cbn in *; assert (i = 0%nat) by lia; subst; left; reflexivity|].
     split; [cbn; lia|]. split; [reflexivity|]. split; [vm_compute; discriminate | vm_compute; reflexivity].
+Qed.
+
+(* the hypotheses of C14_memo_never_hides hold on the cyclic example (and so does its conclusion) *)
+Example C14_example_memo_hyps :
+  let d := mkDoc [(10, SelField (fl 1 22 22) (SelSpread 50 SelNil) SelNil)]
+                 [mkFrag 50 11 (SelField (fl 2 40 30) SelNil
+                                (SelField (fl 3 22 22) (SelSpread 50 (SelField (fl 4 40 31) SelNil SelNil)) SelNil))] in
+  covers_all d (default_order d) /\ nodupb (doc_all_ids d) = true /\ NoDup (map fr_name (d_frags d)) /\
+  (forall o, In o (d_ops d) -> args_ok (snd o)) /\ (forall fd, In fd (d_frags d) -> args_ok (fr_body fd)) /\
+  spec_conflicts ex_schema d = true /\ opt_conflicts ex_schema d (default_order d) (opt_fuel d) = Some true.
+Proof.
+  cbn zeta. split.
+  - split; intros i Hi; cbn in *; assert (i = 0%nat) by lia; subst; auto.
+  - split; [reflexivity|]. split; [repeat constructor; intros []|].
+    split; [intros o [<-|[]]; cbn; repeat split; constructor|].
+    split; [intros fd [<-|[]]; cbn; repeat split; constructor|].
+    split; vm_compute; reflexivity.
 Qed.
 
 (* PairSet: an exclusive entry does not answer the non-exclusive query; after re-recording
